@@ -75,6 +75,9 @@ func (x *Exec) explicitPanic(fr *Frame, st *State, what string) {
 func (x *Exec) setReg(st *State, v ssa.Value, val Value) { st.regs[v] = val }
 
 func (x *Exec) safety(fr *Frame, st *State, detail string, goal *Term, text string) {
+	if x.inSpec > 0 {
+		return
+	}
 	x.oblige(fr, st, "safety", detail, x.sweepTags, goal, text)
 }
 
